@@ -544,7 +544,8 @@ class Interp:
             # container spines are concrete: structural methods never inspect the (symbolic) elements
             owner = fn.__self__
             safe = {"append", "extend", "insert", "clear", "copy", "reverse", "items", "keys", "values"} if isinstance(owner, list) else {"items", "keys", "values", "clear", "copy"}
-            if fn.__name__ in safe or (fn.__name__ == "pop" and isinstance(owner, list) and not contains_symbolic(list(args))):
+            keyed = isinstance(owner, dict) and fn.__name__ in ("setdefault", "get") and args and isinstance(args[0], (str, int, tuple)) and not contains_symbolic([args[0]])
+            if fn.__name__ in safe or keyed or (fn.__name__ == "pop" and isinstance(owner, list) and not contains_symbolic(list(args))):
                 try:
                     return fn(*args, **kwargs)
                 except Exception as e:
